@@ -338,7 +338,10 @@ func ruleCopyMap(c *Ctx) {
 		case "SetValidations":
 			c.saw(fn)
 			uni := c.validationUniverse(rt)
-			cm := c.setterMap(fd, 0)
+			cm, _, simOK := c.setterMapSim(fd)
+			if !simOK {
+				cm = c.setterMap(fd, 0)
+			}
 			if cm.problem != "" {
 				c.undecided(rule, fn, fd.Pos(), cm.problem)
 				continue
@@ -369,7 +372,10 @@ func ruleCopyMap(c *Ctx) {
 		case "Validations":
 			c.saw(fn)
 			uni := c.validationUniverse(rt)
-			cm := c.getterMap(fd, 0)
+			cm, simOK := c.getterMapSim(fd)
+			if !simOK {
+				cm = c.getterMap(fd, 0)
+			}
 			if cm.problem != "" {
 				c.undecided(rule, fn, fd.Pos(), cm.problem)
 				continue
@@ -389,6 +395,10 @@ func ruleCopyMap(c *Ctx) {
 			c.saw(fn)
 			// body: recv.SetValidations(<param or wrapper of param>); return recv
 			recv, val := c.recvObj(fd), c.paramObj(fd, 0)
+			if ok, why, decided := c.withValidationsSim(fd); decided {
+				c.ob(rule, fn+":delegates", fd.Pos(), ok, why)
+				continue
+			}
 			ok, why := false, "body is not `recv.SetValidations(arg); return recv`"
 			if len(fd.Body.List) == 2 && recv != nil && val != nil {
 				es, isE := fd.Body.List[0].(*ast.ExprStmt)
@@ -471,6 +481,11 @@ func ruleClearExact(c *Ctx) {
 		}
 		recv := c.recvObj(fd)
 		rt := c.recvTypeOf(fd)
+		// decided on the effect normal form of the method whenever that is available
+		if simCleared := map[string]bool{}; c.clearExactBySim(rule, fd, famKeys, fam, simCleared) {
+			clearedBy[typeNameOf(rt)+"/"+fam] = simCleared
+			continue
+		}
 		leaves := leafFields(rt)
 		byJSON := map[string]leafInfo{}
 		for _, li := range leaves {
